@@ -369,6 +369,106 @@ def gen_ring_case(rng, name, missing=False):
     return c
 
 
+XI_FAULTS = [None, None, None, "unknown_self_attr", "undef_bare", "overload", "redecl_no_attr", "unique_no_attr", "unique_bad_qual",
+             "cycle"]
+
+
+def gen_xinherit_case(rng, name, fault=None):
+    """inheritance ACROSS schemas (outside the Lean model: judged by the oracle alone).  A library schema declares a chain of
+    entities; a client schema interfaces the lowest one (item-wise, possibly renamed, or as a whole schema) and derives from it:
+    its entities refer to attributes inherited through the foreign supertype in domain rules (`SELF.a`, bare), DERIVE, UNIQUE
+    (unqualified and `SELF\\sup.a`) and redeclarations.  `fault`: one fault with a by-construction label, or None (valid)."""
+    ln, cn = rng.sample(G.SCHEMA_NAMES + NAME_POOL, 2)
+    L, C = G.Schema(ln), G.Schema(cn)
+    depth = rng.randint(1, 3)
+    chain = []
+    for i in range(depth):
+        g = G.Entity(f"g{i}{rng.choice('klmn')}")
+        if chain:
+            g.supers = [chain[-1].name]
+        g.attrs.append(G.Attr(f"ga_{i}_0", ("S", "INTEGER")))
+        if rng.random() < 0.6:
+            g.attrs.append(G.Attr(f"ga_{i}_1", ("S", rng.choice(["INTEGER", "REAL", "STRING"]))))
+        chain.append(g)
+    L.decls += chain
+    low = chain[-1]
+    alias = None
+    form = rng.choice(["use-item", "use-item", "ref-item", "use-whole", "ref-whole"])
+    if form.endswith("item"):
+        if rng.random() < 0.5:
+            alias = f"sup{rng.randint(0, 9)}{rng.choice('rst')}"
+        C.ifaces.append(G.Iface(form[:3], ln, [G.Item(low.name, alias)]))
+    else:
+        C.ifaces.append(G.Iface(form[:3], ln, None))
+    vis = alias or low.name
+    inh = [(g, a) for g in chain for a in g.attrs]           # everything the client's entities inherit
+    ints = [a.name for g, a in inh if a.ty == ("S", "INTEGER")]
+    c0 = G.Entity(f"c0{rng.choice('klmn')}")
+    c0.supers = [vis]
+    c0.attrs.append(G.Attr("own0", ("S", "INTEGER")))
+    k = 0
+    c0.rules.append(G.Rule(f"wr{k}", "exists", attr=rng.choice(inh)[1].name)); k += 1
+    if rng.random() < 0.7:
+        c0.rules.append(G.Rule(f"wr{k}", "bare", attr=rng.choice(ints))); k += 1
+    d = G.Attr("d_c0", ("S", "INTEGER"))
+    d.expr = G.Expr(d.name, None, 0, [rng.choice(ints), "own0"])
+    c0.derives.append(d)
+    uses_qual = False
+    if rng.random() < 0.6:
+        c0.uniques.append(G.Unique("ur0", None, rng.choice(inh)[1].name))
+    if rng.random() < 0.6:
+        c0.uniques.append(G.Unique("ur1", vis, rng.choice(low.attrs).name)); uses_qual = True
+    if rng.random() < 0.5:
+        a = rng.choice(low.attrs)
+        c0.attrs.append(G.Attr(a.name, a.ty, redecl_of=vis)); uses_qual = True
+    C.decls.append(c0)
+    c1 = None
+    if rng.random() < 0.6:
+        c1 = G.Entity(f"c1{rng.choice('klmn')}")
+        c1.supers = [c0.name]
+        c1.attrs.append(G.Attr("own1", ("S", "REAL")))
+        c1.rules.append(G.Rule("wr0", "exists", attr=rng.choice(inh)[1].name))
+        C.decls.append(c1)
+    host = c1 if (c1 is not None and rng.random() < 0.5) else c0
+    cls, verdict, note = "valid", "accept", f"{c0.name} SUBTYPE OF {vis} ({form}{', renamed' if alias else ''}), {depth} level(s) in {ln}"
+    if fault == "unknown_self_attr":
+        host.rules.append(G.Rule(f"wr{len(host.rules)}", "exists", attr="nosuch_xa"))
+        cls, verdict = "undefined-attribute", "reject"
+    elif fault == "undef_bare":
+        dd = G.Attr(f"d_{host.name}_x", ("S", "INTEGER"))
+        dd.expr = G.Expr(dd.name, None, 0, ["nosuch_xb"])
+        host.derives.append(dd)
+        cls, verdict = "undefined-reference", "reject"
+    elif fault == "overload":
+        g, a = rng.choice(inh)
+        host.attrs.insert(0, G.Attr(a.name, a.ty))
+        host.attrs = [x for x in host.attrs if not (x.redecl_of and x.name == a.name)]
+        cls, verdict = "inherited-attribute-redeclared", "reject"
+    elif fault == "redecl_no_attr":
+        c0.attrs.append(G.Attr("nosuch_xr", ("S", "INTEGER"), redecl_of=vis)); uses_qual = True
+        cls, verdict = "bad-redeclaration", "reject"
+    elif fault == "unique_no_attr":
+        c0.uniques.append(G.Unique(f"ur{len(c0.uniques) + 2}", None, "nosuch_xu"))
+        cls, verdict = "undefined-attribute", "reject"
+    elif fault == "unique_bad_qual":
+        c0.uniques.append(G.Unique(f"ur{len(c0.uniques) + 2}", "nosuch_xq", low.attrs[0].name))
+        cls, verdict = "undefined-supertype", "reject"
+    elif fault == "cycle":
+        # the library imports the client's entity back and puts it above its own chain
+        L.ifaces.append(G.Iface("use", cn, [G.Item(c0.name)]))
+        chain[0].supers = [c0.name]
+        cls, verdict = "subtype-cycle", "reject"
+    order = [L, C]
+    rng.shuffle(order)
+    f = G.File(order)
+    c = make_case(name, f, cls, [], verdict, note=note + (f"; fault: {fault}" if fault else ""))
+    c.multi = True
+    c.oracle_only = True
+    if verdict == "accept" and alias and uses_qual:
+        c.finding_key = "alias-group-qualifier-rejected"
+    return c
+
+
 # ------------------------------------------------------------------------------------------------ running
 def parse_stderr(err, table):
     """-> (diags [(code name, file, line, message)], other lines)"""
